@@ -31,6 +31,7 @@ type Stats struct {
 	Restarts                      int
 	SnapshotsInstalled            int
 	ReadySnapWithCommitted        int // Readys that carry a snapshot AND committed entries after it
+	StorageTailStates             int // node states whose log extends, in the storage, beyond unstable.offset-1 (RocksStorage keeps the tail above an applied snapshot)
 	Compactions                   int
 	ConfApplied                   int
 	LearnerSeen                   bool
@@ -420,6 +421,9 @@ func (o *Oracle) Feed(rec *Record) {
 		if !s.Alive {
 			t.wasLeaderAt = 0
 			continue
+		}
+		if s.StorageTail {
+			o.S.StorageTailStates++
 		}
 		if s.LogErr != "" {
 			o.viol("C02", "log-unreadable", seq, "node %d log cannot be read: %s", s.ID, s.LogErr)
